@@ -4,6 +4,6 @@ tier=${1:-quick}; shift
 for d in "$@"; do
 	id=$(python3 -c "import json;print(json.load(open('$d/meta.json'))['property'])")
 	printf "%s " "$d"
-	bash /verif/scripts/try_seeded.sh "$d/patch.diff" "$tier" "$id" | tr '\n' ' '
+	bash "$(dirname "${BASH_SOURCE[0]}")/try_seeded.sh" "$d/patch.diff" "$tier" "$id" | tr '\n' ' '
 	echo
 done
